@@ -172,6 +172,26 @@ func genSpec(h *vh.H, name string, wide bool) *Spec {
 			s.ASF = ps(vh.Pick(h, []string{"item", "thing"}))
 		}
 	}
+	if !s.Arr && h.Chance(1, 7) {
+		// map:<kind>: string keys, values of the kind; rules.minPairs / maxPairs, ext.singleForm
+		s.Map = true
+		s.Opt = false
+		if h.Chance(2, 3) {
+			s.AR = true
+			if h.Chance(1, 2) {
+				s.AMin = pu64(smallU(h) % 4)
+			}
+			if h.Chance(1, 2) {
+				s.AMax = pu64(smallU(h)%5 + 1)
+			}
+			if s.AMin != nil && s.AMax != nil && *s.AMin > *s.AMax && !h.Chance(1, 10) {
+				s.AMin, s.AMax = s.AMax, s.AMin
+			}
+		}
+		if wide && h.Chance(1, 5) {
+			s.ASF = ps(vh.Pick(h, []string{"pair", "entry"}))
+		}
+	}
 	if isMsgKind(s.Kind) || s.Kind == "oneof" {
 		if !s.Arr && s.Opt {
 			s.Opt = false // message fields always have presence; `?` adds nothing
@@ -247,7 +267,7 @@ func genSpec(h *vh.H, name string, wide bool) *Spec {
 		if s.KF == "cus" {
 			s.Pat = ps(vh.Pick(h, patCases).pat)
 		}
-		if wide && !s.Arr {
+		if wide && !s.Arr && !s.Map {
 			switch h.Rng.IntN(6) {
 			case 0:
 				s.PK = pb(true)
@@ -262,7 +282,7 @@ func genSpec(h *vh.H, name string, wide bool) *Spec {
 			if s.PK != nil && *s.PK && s.Opt {
 				s.Opt = false
 			}
-		} else if !s.Arr && h.Chance(1, 8) {
+		} else if !s.Arr && !s.Map && h.Chance(1, 8) {
 			s.PK = pb(true)
 			s.Opt = false
 		}
@@ -309,7 +329,7 @@ func genSpec(h *vh.H, name string, wide bool) *Spec {
 		}
 	case "obj":
 		s.R = withRules && h.Chance(1, 3)
-		if wide && !s.Arr {
+		if wide && !s.Arr && !s.Map {
 			s.Flat = h.Chance(1, 4)
 		}
 	case "oneof", "ts":
@@ -339,7 +359,7 @@ func genSpec(h *vh.H, name string, wide bool) *Spec {
 		if h.Chance(1, 3) {
 			s.Desc = ps(vh.Pick(h, descs))
 		}
-		if !s.Arr || h.Chance(1, 6) {
+		if (!s.Arr && !s.Map) || h.Chance(1, 6) {
 			s.LR = genListRules(h, s)
 		}
 		if s.Kind == "str" && h.Chance(1, 12) {
@@ -508,7 +528,7 @@ func genItemVals(h *vh.H, s *Spec) []string {
 
 func genVals(h *vh.H, s *Spec) []string {
 	items := genItemVals(h, s)
-	if !s.Arr {
+	if !s.Arr && !s.Map {
 		out := append([]string{"~"}, items...)
 		return out
 	}
